@@ -112,6 +112,10 @@ pub fn generate(prop: &PropDef, tier: &str, seed: u64, index: u64) -> RunSpec {
     if prop.id == "C07" && index % 4 == 3 {
         return crate::conc::gen_conc(prop, seed, tier);
     }
+    // C18: the high-water marks must also hold while a flush moves data from memtable to table
+    if prop.id == "C18" && index % 4 == 3 {
+        return crate::conc::gen_conc(prop, seed, tier);
+    }
     // C02: a snapshot must stay stable while other threads write, flush, compact and ingest:
     // every fourth run holds snapshots under the concurrent engine and re-reads them
     if prop.id == "C02" && index % 4 == 3 {
